@@ -15,8 +15,8 @@ CONSTANTS
   SrvErrEOF = FALSE
   Window = FALSE
   LateOK = FALSE
-  Closing = TRUE
+  Closing = FALSE
 INVARIANTS TunnelOrder TunnelNotInband InbandIgnoredWhileTunnel InbandOrder AtMostOneTunnelRelay BoundIsCurrent
   TunnelNothingLost InbandNothingLost TunnelNoJunk LoserClosed ResetClean ParkOnlyWhileHandshaking
-PROPERTIES Progress PumpsEndOrSpin
+PROPERTIES Progress
 CHECK_DEADLOCK FALSE
